@@ -1,5 +1,33 @@
 From InvokeVerif Require Export Corr.RunnerCorr.
-Definition spec (k : case) : bool := spec14 k.
+From InvokeVerif Require Export Model.WaitLoopModel Spec.C14WaitSpec.
+From Coq Require Import NArith.
+
+(** C14's case: the event-script case shared with C08 plus the AGE dimension -- the
+    runner's [input_sleep] (microseconds), the number of wait-loop iterations the script
+    made the command run idle for ([["idle", n]] steps that were completed), and every
+    duration the thread calling run() handed to [time.sleep], run-length encoded
+    [(microseconds, how many in a row)]. *)
+Record wcase := mkw {
+  w_base : case;
+  w_isleep : N;
+  w_idle : N;
+  w_sleeps : list (N * N)
+}.
+
+Definition expand (l : list (N * N)) : list N :=
+  flat_map (fun p => repeat (fst p) (N.to_nat (snd p))) l.
+Definition total (l : list (N * N)) : N := fold_left (fun a p => (a + snd p)%N) l 0%N.
+
+(** model = observation: the event-script part as before; the pauses are those of
+    [wait_loop] for as many looks as were observed (how many there are beyond the
+    scripted idle iterations depends on thread scheduling: at least those) *)
+Definition corr (k : wcase) : bool :=
+  RunnerCorr.corr (w_base k) &&
+  list_eqb N.eqb (wait_sleeps (w_isleep k) (N.to_nat (total (w_sleeps k)))) (expand (w_sleeps k)) &&
+  N.leb (w_idle k) (total (w_sleeps k)).
+
+Definition spec (k : wcase) : bool :=
+  spec14 (w_base k) && C14WaitSpec.wait_ok (w_isleep k) (expand (w_sleeps k)).
 
 (** Timeout source at the Program level (CLI run of a task whose body calls c.run):
     run() keyword > -T > the merged configuration below the overrides level
